@@ -154,6 +154,7 @@ pub fn gen_srv_case(rng: &mut Rng, profile: Profile, prop: &'static str) -> SrvC
         kill_after_start: rng.chance(1, 3),
         fds_from_zero: rng.chance(1, 6),
         kill_first: rng.chance(1, 2),
+        from_fd: rng.chance(1, 4),
     };
     let mut st = Stats::default();
     let mut flags = flags_for(prop, profile);
@@ -608,6 +609,11 @@ fn shrink_srv(case: &SrvCase) -> Vec<SrvCase> {
         c.kill_first = false;
         out.push(c);
     }
+    if case.from_fd {
+        let mut c = case.clone();
+        c.from_fd = false;
+        out.push(c);
+    }
     out
 }
 
@@ -899,6 +905,7 @@ fn full_house(rng: &mut Rng) -> SrvCase {
         kill_after_start: rng.chance(1, 3),
         fds_from_zero: rng.chance(1, 6),
         kill_first: rng.chance(1, 2),
+        from_fd: rng.chance(1, 4),
     };
     let n = *rng.pick(&[10usize, 10, 10, 9, 8]);
     for c in 0..n {
